@@ -85,7 +85,7 @@ Qed.
 
 Lemma writable_wf_fits n : writable_normal n -> wf_normal n /\ fits n.
 Proof.
-  intros (W1 & W2 & W3 & W4 & W5 & W6 & W7 & W8 & W9 & W10 & W11 & W12 & W13 & W14 & W15).
+  intros (W1 & W2 & W3 & W4 & W5 & W6 & W8 & W9 & W10 & W11 & W12 & W13 & W14 & W15).
   cbv zeta in *.
   assert (U : utf8_valid (f_name (n_hdr n)) = true) by (unfold valid_name in W3; apply andb_prop in W3; apply W3).
   assert (S : sanitize_name (f_name (n_hdr n)) = f_name (n_hdr n)).
@@ -104,7 +104,7 @@ Proof.
     split; [destruct (n_phsf n) as [p|]; cbn [opt_all phsf_ok] in *; [apply W5|exact I]|].
     split; [eapply Forall_impl; [|exact W6]; intros c Hc; apply Hc|].
     split; [eapply Forall_impl; [|exact W6]; intros c (_ & Hc & _); apply critical_not_term; exact Hc|].
-    split; [exact W7|]. eapply Forall_impl; [|exact W15]. intros x Hx. apply Hx.
+    eapply Forall_impl; [|exact W15]. intros x Hx. apply Hx.
 Qed.
 
 (* ================================================================================================= *)
@@ -229,7 +229,6 @@ Hypothesis E_len : forall a k b, len16 b -> len16 (E a k b).
 Hypothesis compress_law : forall c lvl ws, decompress c (concat (compress c lvl ws)) = Ok (concat ws).
 Hypothesis compress_det : forall c lvl (ws ws' : list bytes), concat ws = concat ws' ->
   concat (compress c lvl ws) = concat (compress c lvl ws').
-Hypothesis compress_fits : compress_small compress.
 (* WriteOptions of a rebuilt block: codec, cipher and mode of the old header, level lvl, and a FRESH cipher context
    (salt and IV come from the random number generator: the random tape is this parameter) *)
 Variable lvl : N.
